@@ -323,6 +323,36 @@ class Script(object):
         return None
 
 
+class SilentScript(Script):
+    """A peer that never answers: pending connects run into their timeout, nothing is ever sent.
+    Closes the agent asked for still complete. Deviations from it reach the long, quiet schedules
+    (stale timers firing minutes later) that the cooperative script never produces."""
+    def default(self, w):
+        dis = w.disconnecting()
+        if dis:
+            return ('CLOSE_DONE', w.live_list().index(dis[0]))
+        if w.due():
+            return ('TICK', 0)
+        return None
+
+
+class RefuseScript(Script):
+    """A peer whose port is closed: every attempt is refused at once."""
+    def default(self, w):
+        dis = w.disconnecting()
+        if dis:
+            return ('CLOSE_DONE', w.live_list().index(dis[0]))
+        con = w.connecting()
+        if con:
+            return ('CONN_REFUSED', w.live_list().index(con[0]))
+        if w.due():
+            return ('TICK', 0)
+        return None
+
+
+SCRIPTS = {'coop': Script, 'silent': SilentScript, 'refuse': RefuseScript}
+
+
 def run_script(w, harness, script, max_steps=80, until=None, mon=None, on_step=None):
     """Run the cooperative script deterministically from world w. Returns the list of
     (event, aobs, reported_state, time)."""
@@ -356,7 +386,8 @@ def _dev_exec(task):
     h = HARNESS
     w = W.AgentWorld(cfg)
     mon = h.Monitor(cfg, w)
-    script = h.make_script(cfg, **(script_kw or {}))
+    script_kw = dict(script_kw or {})
+    script = SCRIPTS[script_kw.pop('kind', 'coop')](cfg, **script_kw)
     nalts = []
     viols = []
     hist = []
@@ -388,11 +419,11 @@ def _dev_exec(task):
             'end': (w.reported_state(), w.live())}
 
 
-def deviations(harness, cfg, k, horizon, collector, script_kw=None, restrict=None):
+def deviations(harness, cfg, k, horizon, collector, script_kw=None, window=None):
     """All executions departing at most k times from the script (guidance idiom)."""
     global HARNESS
     HARNESS = harness
-    stats = {'executions': 0, 'events': 0, 'k': k, 'horizon': horizon, 'outcomes': set()}
+    stats = {'executions': 0, 'events': 0, 'k': k, 'horizon': horizon, 'window': window, 'outcomes': set()}
     level = [()]
     done = 0
     for devs in range(k + 1):
@@ -407,7 +438,7 @@ def deviations(harness, cfg, k, horizon, collector, script_kw=None, restrict=Non
             for (vkey, detail), hist in r['viols']:
                 collector.add(vkey, {'cfg': cfg, 'history': hist}, detail)
             if devs < k:
-                for i in range(len(c), len(r['nalts'])):
+                for i in range(len(c), min(len(r['nalts']), window if window is not None else 10 ** 9)):
                     for alt in range(1, r['nalts'][i]):
                         nxt.append(tuple(r['taken'][:i]) + (alt,))
         level = nxt
